@@ -346,6 +346,8 @@ def steps_variants(rng, coords, swap):
     yield "list", [float(v) for v in xcol], "own"
     # integer-typed explicit steps: list of ints, range, int64 / int32 array, mixed int / float, tuple
     ints = list(range(int(math.ceil(lo)) - 1, int(math.floor(hi)) + 2))
+    if len(ints) > 60:          # a polygon in a small unit spans many integers: keep an equally spaced subset
+        ints = ints[::len(ints) // 40]
     if len(ints) >= 3:
         k = int(rng.integers(0, 5))
         if k == 0:
